@@ -9,6 +9,9 @@ use cascette_formats::CascFormat;
 use cascette_formats::blte::{BlteFile, CompressionMode};
 use dashmap::DashMap;
 use memmap2::{Mmap, MmapOptions};
+#[cfg(feature = "verif-hooks")]
+use crate::verif_hooks::sync::RwLock;
+#[cfg(not(feature = "verif-hooks"))]
 use parking_lot::RwLock;
 use std::collections::BTreeMap;
 use std::fs::{File, OpenOptions};
